@@ -268,18 +268,18 @@ func init() {
 		Rule: "harness threads issue Write(tagged payload)/Read/Used on keys forced to collide (same hash; different hash same slot; 1-, 2- and 4-slot tables; equal/greater/smaller replacement value), with the non-atomic `used++` split into load and store by the rewriter. Quick: ALL interleavings of the 2-thread harnesses, deviation bound 4 for the 3-thread ones; thorough: ALL interleavings of every harness. Oracle per complete interleaving: each hit returns one single store's tuple for that hash; the call/return history is linearizable w.r.t. the sequential table incl. the replacement rule (brute force over <= 6 calls); fill fraction within [0,1] whenever read and, at quiescence, equal to the number of occupied slots. distinct_nontrivial = distinct call/return histories among executions in which two threads touched a common object",
 		Gen: func(tier string) []explore.Scenario {
 			ps := []ttParams{
-				{32, [][]ttOp{{w(7, 1, 1, 1)}, {w(9, 1, 2, 2)}}},                         // two writers, one slot, second more valuable
-				{32, [][]ttOp{{w(7, 3, 3, 1)}, {w(9, 1, 1, 2)}}},                         // one slot, second less valuable
-				{32, [][]ttOp{{w(7, 1, 1, 1)}, {w(7, 1, 1, 2)}}},                         // same hash, equal value
-				{64, [][]ttOp{{w(0, 1, 1, 1)}, {w(1, 1, 1, 2)}}},                         // two slots: `used` must reach 2
-				{64, [][]ttOp{{w(0, 1, 1, 1), w(1, 1, 1, 3)}, {w(1, 1, 2, 2), w(0, 1, 2, 4)}}},   // 2x2 crossing slots
-				{32, [][]ttOp{{w(7, 1, 1, 1), r(9)}, {w(9, 1, 2, 2), r(7)}}},             // write then read the other's key
-				{32, [][]ttOp{{w(7, 1, 1, 1), u}, {w(9, 1, 2, 2), u}}},                   // fill fraction observed concurrently
+				{32, [][]ttOp{{w(7, 1, 1, 1)}, {w(9, 1, 2, 2)}}},                                // two writers, one slot, second more valuable
+				{32, [][]ttOp{{w(7, 3, 3, 1)}, {w(9, 1, 1, 2)}}},                                // one slot, second less valuable
+				{32, [][]ttOp{{w(7, 1, 1, 1)}, {w(7, 1, 1, 2)}}},                                // same hash, equal value
+				{64, [][]ttOp{{w(0, 1, 1, 1)}, {w(1, 1, 1, 2)}}},                                // two slots: `used` must reach 2
+				{64, [][]ttOp{{w(0, 1, 1, 1), w(1, 1, 1, 3)}, {w(1, 1, 2, 2), w(0, 1, 2, 4)}}},  // 2x2 crossing slots
+				{32, [][]ttOp{{w(7, 1, 1, 1), r(9)}, {w(9, 1, 2, 2), r(7)}}},                    // write then read the other's key
+				{32, [][]ttOp{{w(7, 1, 1, 1), u}, {w(9, 1, 2, 2), u}}},                          // fill fraction observed concurrently
 				{128, [][]ttOp{{w(0, 1, 1, 1), w(1, 1, 1, 2)}, {w(2, 1, 1, 3), w(3, 1, 1, 4)}}}, // four slots, four first writes
-				{32, [][]ttOp{{w(7, 1, 1, 1)}, {w(9, 1, 2, 2)}, {r(9)}}},                 // two writers and a reader
-				{32, [][]ttOp{{w(7, 1, 1, 1)}, {w(7, 1, 2, 2)}, {r(7), r(7)}}},           // reader sees one of two stores of the same hash
-				{64, [][]ttOp{{w(0, 1, 1, 1)}, {w(1, 1, 1, 2)}, {w(2, 1, 3, 3)}}},        // three writers, two slots
-				{64, [][]ttOp{{w(0, 1, 1, 1)}, {w(1, 1, 1, 2)}, {u, r(0), r(1)}}},        // observer thread
+				{32, [][]ttOp{{w(7, 1, 1, 1)}, {w(9, 1, 2, 2)}, {r(9)}}},                        // two writers and a reader
+				{32, [][]ttOp{{w(7, 1, 1, 1)}, {w(7, 1, 2, 2)}, {r(7), r(7)}}},                  // reader sees one of two stores of the same hash
+				{64, [][]ttOp{{w(0, 1, 1, 1)}, {w(1, 1, 1, 2)}, {w(2, 1, 3, 3)}}},               // three writers, two slots
+				{64, [][]ttOp{{w(0, 1, 1, 1)}, {w(1, 1, 1, 2)}, {u, r(0), r(1)}}},               // observer thread
 			}
 			var out []explore.Scenario
 			for _, p := range ps {
